@@ -1,5 +1,168 @@
 import PkVerif.Drv.Common
-/-! `pkmodel-c10`: stub (property not built yet). -/
+import PkVerif.Model.SortedBuffer
+import PkVerif.Gen.Facts
+/-!
+`pkmodel-c10`: the sorted-KV contract (`Pk.SortedKV`, for memory/leveldb/kvfile/sqlite) and the
+write-buffer model (`Pk.SortedBuffer`, for `buffer.New(mem, mem, n)`) behind the c10 line protocol
+(see harness/props/c10/exec.go).  Byte strings travel as run-length aware tokens.
+-/
 namespace Pk.Drv.C10
-def machine : Machine := { σ := Unit, init := (), step := fun s _ => (s, "bad-op") }
+open Pk Pk.SortedKV Pk.SortedBuffer
+
+/-- the limits as they are in /repo right now -/
+def lim : Limits := ⟨Gen.maxKeySize, Gen.maxValueSize⟩
+
+/-! ## tokens (mirror of harness/props/c10/codec.go) -/
+
+def maxRep : Nat := 100000
+def minRun : Nat := 8
+
+def hexChar (n : Nat) : Char := Char.ofNat (hexDigit n)
+
+def hexStr (b : Bytes) : String :=
+  b.foldl (fun acc x => (acc.push (hexChar (x / 16))).push (hexChar (x % 16))) ""
+
+/-- close the current run: long runs become a part of their own, short ones join the literal
+(kept reversed) -/
+def closeRun (cur cnt : Nat) (lit : Bytes) (parts : Array String) : Bytes × Array String :=
+  if cnt ≥ minRun then
+    let parts := if lit.isEmpty then parts else parts.push (hexStr lit.reverse)
+    ([], parts.push (hexStr [cur] ++ "*" ++ toString cnt))
+  else (List.replicate cnt cur ++ lit, parts)
+
+def encLoop : Bytes → Nat → Nat → Bytes → Array String → Array String
+  | [], cur, cnt, lit, parts =>
+    let (lit, parts) := closeRun cur cnt lit parts
+    if lit.isEmpty then parts else parts.push (hexStr lit.reverse)
+  | x :: xs, cur, cnt, lit, parts =>
+    if x = cur then encLoop xs cur (cnt + 1) lit parts
+    else
+      let (lit, parts) := closeRun cur cnt lit parts
+      encLoop xs x 1 lit parts
+
+def encTok : Bytes → String
+  | [] => "-"
+  | x :: xs => "+".intercalate (encLoop xs x 1 [] #[]).toList
+
+def parseNatCs (cs : List Char) (maxDigits : Nat) : Option Nat :=
+  if cs.isEmpty || cs.length > maxDigits then none
+  else if cs.length > 1 && cs.head? == some '0' then none
+  else if cs.all Char.isDigit then some (cs.foldl (fun n c => n * 10 + (c.toNat - 48)) 0)
+  else none
+
+def parseNat (d : String) (maxDigits : Nat) : Option Nat := parseNatCs d.toList maxDigits
+
+def hexNib (c : Char) : Option Nat := hexVal c.toNat
+
+/-- lower-case hex, even, non-empty (tail recursive: values may be 63001 bytes) -/
+def hexPart (s : String) : Option Bytes :=
+  let rec go : List Char → Bytes → Option Bytes
+    | [], acc => some acc.reverse
+    | [_], _ => none
+    | a :: b :: r, acc =>
+      match hexNib a, hexNib b with
+      | some x, some y => go r ((x * 16 + y) :: acc)
+      | _, _ => none
+  if s.isEmpty then none else go s.toList []
+
+def decPart (p : String) : Option Bytes :=
+  match p.splitOn "*" with
+  | [h] => hexPart h
+  | [x, d] =>
+    match hexPart x, parseNat d 6 with
+    | some [b], some n => if 1 ≤ n && n ≤ maxRep then some (List.replicate n b) else none
+    | _, _ => none
+  | _ => none
+
+def decTok (s : String) : Option Bytes :=
+  if s == "-" then some []
+  else
+    (s.splitOn "+").foldl (fun acc p =>
+      match acc, decPart p with
+      | some a, some b => some (a ++ b)
+      | _, _ => none) (some [])
+
+/-- `-?[0-9]{1,9}`, no leading zeros, no `-0` -/
+def parseInt (s : String) : Option Int :=
+  if s.toList.head? == some '-' then
+    match parseNatCs (s.toList.drop 1) 9 with
+    | some n => if n = 0 then none else some (-(n : Int))
+    | none => none
+  else (parseNat s 9).map (fun n => (n : Int))
+
+/-! ## the machine -/
+
+inductive Cmd where
+  | openSpec (persistent : Bool)
+  | openBuf (max : Int)
+  | op (o : Op)
+  | dump
+
+def parseMuts : List String → Option (List Mut)
+  | [] => some []
+  | "s" :: k :: v :: r =>
+    match decTok k, decTok v, parseMuts r with
+    | some k, some v, some ms => some (Mut.set k v :: ms)
+    | _, _, _ => none
+  | "d" :: k :: r =>
+    match decTok k, parseMuts r with
+    | some k, some ms => some (Mut.del k :: ms)
+    | _, _ => none
+  | _ => none
+
+def parse : List String → Option Cmd
+  | ["open", "mem"] => some (.openSpec false)
+  | ["open", "leveldb"] => some (.openSpec true)
+  | ["open", "kvfile"] => some (.openSpec true)
+  | ["open", "sqlite"] => some (.openSpec true)
+  | ["open", "buffer", n] => (parseInt n).map .openBuf
+  | ["get", k] => (decTok k).map (fun k => .op (.get k))
+  | ["del", k] => (decTok k).map (fun k => .op (.del k))
+  | ["set", k, v] =>
+    match decTok k, decTok v with
+    | some k, some v => some (.op (.set k v))
+    | _, _ => none
+  | ["find", s, e] =>
+    match decTok s, decTok e with
+    | some s, some e => some (.op (.find s e))
+    | _, _ => none
+  | "batch" :: r => (parseMuts r).map (fun ms => .op (.batch ms))
+  | ["flush"] => some (.op .flush)
+  | ["reopen"] => some (.op .reopen)
+  | ["dump"] => some .dump
+  | _ => none
+
+inductive St where
+  | closed
+  | spec (persistent : Bool) (m : KV)
+  | buf (b : Buf)
+
+def showRows (tag : String) (l : KV) : String :=
+  l.foldl (fun acc p => acc ++ " " ++ encTok p.1 ++ "=" ++ encTok p.2) (tag ++ " " ++ toString l.length)
+
+def showOut : Out → String
+  | .val none => "notfound"
+  | .val (some v) => "v " ++ encTok v
+  | .ok => "ok"
+  | .rows l => showRows "rows" l
+
+def step (s : St) (ws : List String) : St × String :=
+  match parse ws with
+  | none => (s, "bad-op")
+  | some c =>
+    match s, c with
+    | .closed, .openSpec p => (.spec p [], "ok")
+    | .closed, .openBuf n => (.buf (Buf.new n), "ok")
+    | .closed, _ => (s, "noopen")
+    | _, .openSpec _ => (s, "bad-op")
+    | _, .openBuf _ => (s, "bad-op")
+    | .spec _ _, .dump => (s, "na")
+    | .spec _ _, .op .flush => (s, "na")
+    | .spec false _, .op .reopen => (s, "na")
+    | .spec p m, .op o => let r := specStep lim m o; (.spec p r.1, showOut r.2)
+    | .buf b, .op o => let r := bufStep lim b o; (.buf r.1, showOut r.2)
+    | .buf b, .dump => (s, showRows "buf" b.buf ++ " | " ++ showRows "back" b.back)
+
+def machine : Machine := { σ := St, init := .closed, step := step }
+
 end Pk.Drv.C10
